@@ -10,8 +10,10 @@
     recovers; the correspondence harness exercises hostile values.  [C15_needs_total_render]
     shows the assumption cannot be dropped.
 
-    Scope of the scripts: [codes_ok] (status codes 200..999, where the net/http model is
-    faithful) and [no_abort] (the panic value is not http.ErrAbortHandler itself — values that
+    Scope of the scripts: [codes_ok] (the first status code is 200..999, where the net/http model is
+    faithful, or one that net/http rejects — 0..99, >= 1000, negative ints: WriteHeader then panics
+    inside the call with nothing sent or recorded, which is a handler panic before any status was
+    written; a WriteHeader after a header went out does not pass 0) and [no_abort] (the panic value is not http.ErrAbortHandler itself — values that
     merely wrap it are ordinary values [PV v]). *)
 From Coq Require Import List NArith Bool.
 Import ListNotations.
@@ -158,6 +160,29 @@ Example C15_example_helpers :
   (relay500 r, wire r, logged r) = (false, 302, 302).
 Proof. vm_compute. reflexivity. Qed.
 
+(* WriteHeader(1000) / WriteHeader(42) / WriteHeader(0) as the first write: net/http panics inside the call,
+   nothing was sent: 500 + text, the ERROR record carries net/http's panic value, END logs 500 *)
+Example C15_example_invalid_code_first :
+  let sc := [Nop; Hdr 1000; Body ViaWrite 5] in
+  let r := relay total_render 4 ex_rq sc in
+  (codes_ok sc, set_once sc, panics_before_header sc, escaped r, relay500 r, wire r, body r, records r)
+  = (true, true, true, false, true, 500, [err_chunk], [BEG 1 1 7 7; ERR (PV invalid_hdr_pv) 7; END 500 1 1 7 7])
+  /\ (let r := relay total_render 4 ex_rq [Hdr 42] in (relay500 r, wire r, logged r)) = (true, 500, 500)
+  /\ (let r := relay total_render 4 ex_rq [Hdr 0] in (codes_ok [Hdr 0], relay500 r, wire r, logged r)) = (true, true, 500, 500).
+Proof. vm_compute. repeat split; reflexivity. Qed.
+
+(* the same call after a valid status or after Flush: superfluous for net/http (no panic), the handler goes on;
+   a later panic finds a started response: no 500 *)
+Example C15_example_invalid_code_later :
+  let sc := [Hdr 404; Hdr 1000; Panic (PV 3)] in
+  let r := relay total_render 4 ex_rq sc in
+  let sc' := [Flush false; Hdr 42; Panic (PV 3)] in
+  let r' := relay total_render 4 ex_rq sc' in
+  (codes_ok sc, panic_of sc, panics_before_header sc, relay500 r, wire r,
+   codes_ok sc', panic_of sc', panics_before_header sc', relay500 r', wire r')
+  = (true, Some (PV 3), false, false, 404, true, Some (PV 3), false, false, 200).
+Proof. vm_compute. reflexivity. Qed.
+
 (* nothing written, no panic: net/http sends 200, END logs 200 *)
 Example C15_example_empty :
   let r := relay total_render 0 ex_rq [] in
@@ -212,6 +237,12 @@ Example C15_example_check :
   (* the old Flush as observed: 200 + error text, END 500 *)
   /\ spec_ok (check_case 4 ex_rq [Flush false; Panic (PV 3)] false 200 true [err_chunk]
                 [BEG 1 1 7 7; ERR (PV 3) 7; END 500 1 1 7 7]) = false
+  (* an invalid first WriteHeader whose code was recorded although nothing was sent: no 500, END 1000 *)
+  /\ (let v := check_case 4 ex_rq [Hdr 1000] false 200 true []
+                [BEG 1 1 7 7; ERR (PV invalid_hdr_pv) 7; END 1000 1 1 7 7] in
+      (in_scope v, spec_500 v, spec_records v)) = (true, false, false)
+  /\ verdict_ok (check_case 4 ex_rq [Hdr 1000] false 500 true [err_chunk]
+                [BEG 1 1 7 7; ERR (PV invalid_hdr_pv) 7; END 500 1 1 7 7]) = true
   (* repeated WriteHeader: a REQ_END carrying the first code instead of the last is no mismatch *)
   /\ verdict_ok (check_case 4 ex_rq [Hdr 404; Hdr 503] false 404 true [] [BEG 1 1 7 7; END 404 1 1 7 7]) = true.
 Proof. vm_compute. repeat split; reflexivity. Qed.
